@@ -32,12 +32,18 @@ static const Shared& shared_tokens(const lib::LangEntry& a, const lib::LangEntry
 static std::string oracle(const Case& c) {
     deps::Kit& k = deps::kit(0); k.reset_all(); Evidence& ev = W().ev; polyseed_enable_features((unsigned)c.u("mask", 7));
     k.lenient = c.u("lenient") != 0;
+    // optional prelude: a run of successful automatic decodes of valid phrases of one language immediately before the string under
+    // test (a detector that learns from earlier calls must still never guess)
+    if (c.u("prelude")) { const lib::LangEntry* pl = REG->by_name(c.get("plang")); if (pl) for (uint64_t i = 0; i < c.u("prelude"); i++) {
+        std::vector<uint8_t> sec(19); for (int j = 0; j < 19; j++) sec[j] = (uint8_t)(i * 29 + j * 7 + 3); model::Seed want = g::to_seed(sec, (int)(i * 13 % 1024), 0); std::string e2; lib::SeedPtr ps(g::build_by_create(want, 7, 0, &e2)); if (!ps.p) break;
+        std::string ph = lib::encode(ps, pl->lang, (unsigned)i); const polyseed_lang* lo = nullptr; int st = lib::decode_auto(ph, (unsigned)i, &lo); if (st != model::OK && st != model::MULT_LANG) return std::string("prelude: a valid ") + pl->name_en + " phrase decodes to " + model::status_name(st); }
+        polyseed_enable_features((unsigned)c.u("mask", 7)); k.reset_logs(); ev.count("with-prelude-of-same-language-decodes"); }
     dor::Result r; std::string m = dor::check(c.bytes("s"), (unsigned)c.u("coin") & 2047u, c.u("allocfail") != 0, &r);
     if (!m.empty()) return m;
     bool nt = r.R >= 1 || (r.tokens >= 15 && r.tokens <= 17);
     ev.eval(); ev.count(r.cls); ev.count("gen:" + c.get("gen", "?")); if (c.u("allocfail")) ev.count("with-allocation-failure");
     if (r.tokens >= 0) ev.count(r.tokens == 16 ? "tokens:16" : r.tokens == 15 ? "tokens:15" : r.tokens == 17 ? "tokens:17" : "tokens:other");
-    if (r.R >= 2) { bool diff = false; int first = -2; for (int e : r.E) if (e != model::LANG && e != model::NUM_WORDS) { if (first == -2) first = e; else if (e != first) diff = true; } if (diff) ev.count("R>=2 with differing checksum verdicts"); }
+    if (r.R >= 3) ev.count("R>=3"); if (r.R >= 2) { bool diff = false; int first = -2; for (int e : r.E) if (e != model::LANG && e != model::NUM_WORDS) { if (first == -2) first = e; else if (e != first) diff = true; } if (diff) ev.count("R>=2 with differing checksum verdicts"); }
     if (nt) { ev.nt(c); ev.sample(r.cls, c); } else ev.count("trivial");
     return "";
 }
@@ -81,23 +87,31 @@ static void run() {
     });
     // (2) ambiguity builders: all 16 tokens accepted by two languages; check word aimed at the first, the second or neither
     rc_run("c09-ambiguous", a.n(1500, 40000), 100, [&]() {
+        // one case in five asks for three languages at once (the verdict must not depend on the parity or number of matching languages)
+        static const char* triples[][3] = {{"English", "French", "Italian"}, {"Spanish", "Portuguese", "Italian"}, {"Spanish", "French", "Italian"}, {"English", "French", "Spanish"}, {"French", "Portuguese", "Spanish"}, {"English", "Italian", "Portuguese"}};
+        int tri = *in_range<int>(0, 5) == 0 ? *in_range<int>(0, (int)(sizeof triples / sizeof triples[0])) : -1;
         static const char* pairs[][2] = {{"Chinese (Simplified)", "Chinese (Traditional)"}, {"Chinese (Traditional)", "Chinese (Simplified)"}, {"Spanish", "Portuguese"}, {"English", "French"}, {"French", "English"}, {"Italian", "Spanish"}, {"Portuguese", "Spanish"}, {"French", "Italian"}, {"English", "Czech"}, {"Spanish", "French"}, {"Italian", "Portuguese"}};
-        int pi = *in_range<int>(0, (int)(sizeof pairs / sizeof pairs[0])); const lib::LangEntry* A = REG->by_name(pairs[pi][0]); const lib::LangEntry* B = REG->by_name(pairs[pi][1]); RC_PRE(A && B);
-        const Shared& sh = shared_tokens(*A, *B); RC_PRE(sh.toks.size() >= 32);
+        int pi = *in_range<int>(0, (int)(sizeof pairs / sizeof pairs[0])); const lib::LangEntry* A = REG->by_name(tri >= 0 ? triples[tri][0] : pairs[pi][0]); const lib::LangEntry* B = REG->by_name(tri >= 0 ? triples[tri][1] : pairs[pi][1]); RC_PRE(A && B);
+        const lib::LangEntry* C3 = tri >= 0 ? REG->by_name(triples[tri][2]) : nullptr; RC_PRE(tri < 0 || C3);
+        const Shared& sh2 = shared_tokens(*A, *B); Shared sh3; if (C3) { for (auto& t : sh2.toks) if (recognised(*C3, t)) sh3.toks.push_back(t); } const Shared& sh = C3 ? sh3 : sh2; RC_PRE(sh.toks.size() >= 24);
         const lib::LibWords& lwa = lib::lib_words(*A); const lib::LibWords& lwb = lib::lib_words(*B); RC_PRE(lwa.ok && lwb.ok);
         int aim = *in_range<int>(0, 3); unsigned coin = (unsigned)*g::coin(); std::vector<std::string> t(16);
+        // partial overlap: only the first `nshared` tokens are shared, the rest belong to the second language alone - every list must still be tried to the end
+        int nshared = (tri < 0 && *in_range<int>(0, 3) == 0) ? *rc::gen::element(11, 12, 13, 14, 15) : 16; if (nshared < 16) aim = 1;
         for (int tries = 0; tries < 40; tries++) {
-            for (int i = 1; i < 16; i++) t[i] = sh.toks[*in_range<size_t>(0, sh.toks.size())];
+            for (int i = 1; i < 16; i++) t[i] = (i < nshared) ? sh.toks[*in_range<size_t>(0, sh.toks.size())] : lwb.w[*in_range<int>(0, 2048)];
             if (aim == 2) { t[0] = sh.toks[*in_range<size_t>(0, sh.toks.size())]; break; }
             const lib::LibWords& lw = aim == 0 ? lwa : lwb; std::array<unsigned, 16> co{}; bool ok = true;
             for (int i = 1; i < 16; i++) { int ix = index_of(lw, model::nfkd(t[i])); if (ix < 0) { ok = false; break; } co[i] = (unsigned)ix; }
             if (!ok) continue; co[1] ^= coin; unsigned c0 = model::check_value(co); // aim only: a wrong aim just lands in another class
             std::string w = lw.w[c0]; std::string stem; { auto cps = model::codepoints(model::strip_marks(w)); if (cps.size() > 4) { cps.resize(4); stem = model::utf8(cps); } }
-            if (recognised(*A, w) && recognised(*B, w)) { t[0] = w; break; } if (!stem.empty() && recognised(*A, stem) && recognised(*B, stem) && index_of(lw, stem) == (int)c0) { t[0] = stem; break; }
+            if (nshared < 16 && aim == 1) { std::string st4 = stem.empty() ? w : stem; if (recognised(*A, st4)) { t[0] = st4; break; } if (tries > 30) { t[0] = w; break; } t[0].clear(); continue; }   /* first word shared if possible */
+            if (recognised(*A, w) && recognised(*B, w) && (!C3 || recognised(*C3, w))) { t[0] = w; break; } if (!stem.empty() && recognised(*A, stem) && recognised(*B, stem) && (!C3 || recognised(*C3, stem)) && index_of(lw, stem) == (int)c0) { t[0] = stem; break; }
             t[0].clear();
         }
         RC_PRE(!t[0].empty());
-        Case c; c.set("s", hex(lib::join(t))); c.set("coin", coin); c.set("allocfail", *in_range<unsigned>(0, 2)); c.set("gen", std::string("ambiguous:") + (aim == 0 ? "valid-in-first" : aim == 1 ? "valid-in-second" : "unaimed")); c.set("mask", 7);
+        Case c; c.set("s", hex(lib::join(t))); c.set("coin", coin); c.set("allocfail", *in_range<unsigned>(0, 2)); if (*in_range<int>(0, 2)) { c.set("prelude", *in_range<unsigned>(1, 8)); c.set("plang", (*in_range<int>(0, 2) ? A : B)->name_en); }
+        c.set("gen", std::string(C3 ? "ambiguous-3-languages:" : nshared < 16 ? "first-words-shared-rest-second-language:" : "ambiguous:") + (aim == 0 ? "valid-in-first" : aim == 1 ? "valid-in-second" : "unaimed")); c.set("mask", 7);
         set_current(c); std::string m = oracle(c); if (!m.empty()) VF_FAIL(c, m);
     });
     // (3) arbitrary text: Unicode scalar values, raw bytes, word soup with 14-18 tokens
